@@ -24,6 +24,11 @@ def run(chk, repo, tier):
                        'nothing changing psi before it (the reversibility statement multiplies the result by this number)')
     from .C08 import return_rule
     return_rule(chk, repo, 'C09.R3', 'evolution.integrate_local_singlesite')
+    chk.rule('C09.R5', 'each local sub-step is the exact local flow: on every exit of _local_hamiltonian_step and '
+                       '_local_bond_step the flattened tensor has gone through expm_krylov with time argument -dt (also for '
+                       'one-dimensional bonds, where the bond step is the scalar factor exp(+c*dt*E) that exactness on a '
+                       'complete manifold needs); the only exit that may return the input is guarded by dt == 0')
+    sr.sign_rule(chk, repo, 'C09.R5')
     from . import support
     support.krylov_rules(chk, repo, 'C09.K')
     chk.undecided += ['exactness on a complete manifold', 'the numerical size of the reversibility defect']
